@@ -837,7 +837,7 @@ impl Family for Builtins {
         Some(match &self.entries[(k % n) as usize] {
             Entry::Probe(i) => {
                 let p = &self.probes[*i];
-                J::obj().set("builtin", p.label()).set("round", k / n).set("wrapper", p.srcs()[0])
+                J::obj().set("builtin", p.label()).set("round", k / n).set("wrapper", p.srcs()[0]).set("sig_hint", format!("builtin/{}", p.label()))
             }
             Entry::Uncovered(name, why) => J::obj().set("uncovered", name.as_str()).set("reason", why.as_str()),
         })
